@@ -115,6 +115,10 @@ func (s *Sess) CreatePDR(req *ie.IE) error {
 			if err1 != nil {
 				break
 			}
+			if _, dup := urrids[v]; dup {
+				// the same URR ID listed twice is still one reference of this PDR
+				break
+			}
 			urrids[v] = struct{}{}
 			urrInfo, ok := s.URRIDs[v]
 			if ok {
